@@ -9,7 +9,7 @@ FUNCS = ['RangeProofTranscript::{new,challenges_y_z,challenge_round_e,challenge_
 
 def cases(tier):
     out = []
-    cfgs = [(8, 1, 1, 1), (2, 2, 4, 2), (4, 4, 4, 6), (64, 1, 1, 3), (4, 4, 4, 1)] if tier == 'quick' else \
+    cfgs = [(8, 1, 1, 1), (2, 2, 4, 2), (4, 4, 4, 6), (64, 1, 1, 3), (4, 4, 4, 1), (2, 8, 8, 1)] if tier == 'quick' else \
         [(8, 1, 1, 1), (2, 2, 4, 2), (4, 4, 4, 6), (64, 1, 1, 3), (1, 2, 2, 4), (16, 8, 8, 5), (32, 2, 4, 1), (64, 4, 4, 6), (2, 16, 16, 2)]
     for (n, m, cap, x) in cfgs:
         cfg = {'scenario': 'adversarial', 'n': n, 'x': x,
